@@ -302,6 +302,19 @@ def substBaseList (s : Subst) : List Ty → List Ty
   | c :: cs => substBase s c :: substBaseList s cs
 end
 
+/-! `BindRadicals(substitutes, arg, anyType)`: the template parameters of a declared argument type
+that met the any-type (so the actual argument says nothing about them) are bound to it, unless
+already bound -/
+mutual
+def bindRadicals (s : Subst) (anyT : Ty) : Ty → Subst
+  | .base a => if isRadical a && (lookup s a).isNone then s ++ [(a, anyT)] else s
+  | .coll b => bindRadicals s anyT b
+  | .tuple cs => bindRadicalsList s anyT cs
+def bindRadicalsList (s : Subst) (anyT : Ty) : List Ty → Subst
+  | [] => s
+  | c :: cs => bindRadicalsList (bindRadicals s anyT c) anyT cs
+end
+
 /-! `TypeEnv::CompareTemplated(substitutes, arg, value)`: result and the updated map -/
 mutual
 def compareTemplated (te : TraitEnv) (s : Subst) : Ty → Ty → Bool × Subst
@@ -320,13 +333,13 @@ def compareTemplated (te : TraitEnv) (s : Subst) : Ty → Ty → Bool × Subst
       | _ => (false, s)
   | .coll a, v =>
     if Ty.beq (.coll a) v then (true, s)
-    else if v.isAny then (true, s)
+    else if v.isAny then (true, bindRadicals s v (.coll a))
     else match v with
       | .coll b => compareTemplated te s a b
       | _ => (false, s)
   | .tuple as, v =>
     if Ty.beq (.tuple as) v then (true, s)
-    else if v.isAny then (true, s)
+    else if v.isAny then (true, bindRadicals s v (.tuple as))
     else match v with
       | .tuple bs => if as.length != bs.length then (false, s) else compareTemplatedList te s as bs
       | _ => (false, s)
